@@ -1008,13 +1008,8 @@ func adjacencyAfterInsertion(p *engine.Program) (bool, string) {
 			ins = a.Instr
 		}
 	}
-	var writes []ssa.Instruction
-	for _, a := range engine.FieldAccessesIn(rp, kcc) {
-		if a.Kind == engine.AccMapUpdate {
-			writes = append(writes, a.Instr)
-		}
-	}
-	if ins == nil || len(writes) < 2 {
+	writes := fieldWriteSitesIn(p, rp, kcc, true)
+	if ins == nil || len(writes) < 1 {
 		return false, fmt.Sprintf("insertion found: %v, adjacency writes: %d", ins != nil, len(writes))
 	}
 	if hit := engine.Reach(rp, nil, nil, func(in ssa.Instruction) bool { return in == ins }, func(in ssa.Instruction) bool { return isOneOf(in, writes) }); hit != nil {
@@ -1049,4 +1044,42 @@ func adjacencyMapsAreFresh(p *engine.Program) (bool, string, int) {
 		return false, "a row of knownConnectionCosts is installed from something other than make(map) in " + strings.Join(bad, ", ") + ": a peer's \"Connections\":null leaves a nil row, and the next write into that row (a handshake as that node) panics the daemon", n
 	}
 	return n > 0, "no row installation found", n
+}
+
+// fieldWriteSitesIn lists the instructions of owner that write field f (store, map update/delete),
+// including calls from owner to a private helper of owner that performs such a write: an
+// extracted helper is the owner's own code, and the call is where the write happens in the owner.
+func fieldWriteSitesIn(p *engine.Program, owner *ssa.Function, f *types.Var, insertOnly bool) []ssa.Instruction {
+	var out []ssa.Instruction
+	isW := func(k engine.AccessKind) bool {
+		if insertOnly {
+			return k == engine.AccMapUpdate
+		}
+		return k == engine.AccMapUpdate || k == engine.AccMapDelete || k == engine.AccStore
+	}
+	for _, a := range engine.FieldAccessesIn(owner, f) {
+		if engine.IsFreshAlloc(a.Base) {
+			continue
+		}
+		if isW(a.Kind) {
+			out = append(out, a.Instr)
+		}
+	}
+	ownerName := engine.FuncName(owner)
+	for _, ci := range engine.CallsIn(owner) {
+		c := ci.Common().StaticCallee()
+		if c == nil || len(c.Blocks) == 0 || c == owner || privateHelperOf(p, c, map[string]bool{ownerName: true}) == "" {
+			continue
+		}
+		writes := false
+		for _, a := range engine.FieldAccessesIn(c, f) {
+			if isW(a.Kind) {
+				writes = true
+			}
+		}
+		if writes {
+			out = append(out, ci)
+		}
+	}
+	return out
 }
